@@ -1,6 +1,7 @@
 package main
 
 import (
+	"go/token"
 	"fmt"
 	"regexp"
 	"sort"
@@ -22,6 +23,8 @@ func propC16(c *Check) {
 	c.freshVotersAreDistinct("R6")
 	c.voteKeyRepresentation("R6")
 	c.Rule("R7", "an imported relayer group is well-formed: genesis import refuses a proposer that is also listed among the voters")
+	c.Rule("R8", "a proposer that acts is marked accepted (otherwise the end blocker elects a new one although the proposer did not fail to accept in time): every success exit of VerifyProposal / VerifyNonProposal is reached either with the loaded ProposerAccepted flag true or through a Relayer.Set of the record whose flag was set to true")
+	c.actingProposerMarkedAccepted("R8")
 	c.genesisRefusesProposerAmongVoters("R7")
 
 	nv := p.MustFn("x/relayer/keeper.msgServer.NewVoter")
@@ -434,4 +437,46 @@ func idxOfLoad(v ssa.Value) (ssa.Value, bool) {
 		return x.Index, true
 	}
 	return nil, false
+}
+
+
+func (c *Check) actingProposerMarkedAccepted(rule string) {
+	p := c.p
+	for _, key := range []string{"x/relayer/keeper.Keeper.VerifyProposal", "x/relayer/keeper.Keeper.VerifyNonProposal"} {
+		f := p.MustFn(key)
+		c.touch(f)
+		r := p.R(f)
+		cons := "acting-proposer-marked-accepted @ " + key
+		// the stores of the record: Relayer.Set(rec) at which rec.ProposerAccepted is true
+		var marks []ssa.Instruction
+		for _, s := range p.StoreSites(f) {
+			if s.Field.Name() != "Relayer" || s.Method != "Set" || len(s.Args) == 0 {
+				continue
+			}
+			v := s.Args[len(s.Args)-1]
+			if u, ok := v.(*ssa.UnOp); ok && u.Op == token.MUL {
+				if a, path := rootAlloc(u.X); a != nil && path == "" {
+					if r.fieldAt(a, ".ProposerAccepted", s.Call, "unchanged", 0) == "true" {
+						marks = append(marks, s.Call)
+					}
+				}
+			}
+		}
+		avoid := map[edgeKey]bool{}
+		for _, ef := range p.EdgeFacts(f) {
+			if ef.Pred == nil && regexp.MustCompile(`^Relayer\.Get\(\)#0\.ProposerAccepted$`).MatchString(ef.Fact) {
+				avoid[ef.Key()] = true
+			}
+		}
+		if len(marks) == 0 || len(avoid) == 0 {
+			c.Violated(rule, cons, p.Pos(f.Pos()), fmt.Sprintf("%d stores of the record with the flag set, %d tests of the loaded flag reason=not-established", len(marks), len(avoid)))
+			continue
+		}
+		ps := &PathSearch{Fn: f, AvoidEdges: avoid, AvoidInstr: instrSet(marks), IsTarget: successTargets(f)}
+		if t, path := ps.Find(); t != nil {
+			c.Violated(rule, cons, p.InstrPos(t), "a success exit is reachable without the proposer being marked accepted (flag neither found true nor stored true)", p.describePath(path)...)
+		} else {
+			c.Held(rule, cons, p.InstrPos(marks[0]), "flag loaded true, or set and stored")
+		}
+	}
 }
